@@ -7,13 +7,138 @@ theorem filter_translated : Gen.PySrc.SpecifierSet.filter_supported = true := rf
 
 /-! ### model side: `Spec.filter` is natural in the tags, and yields only tags it was given -/
 
-/-- the three possible continuations of one iteration of `Spec.filterLoop` -/
-theorem filterLoop_cons_cases {α} (sp : Spec) (ov pre : Option Bool) (tag : α) (v : Ver) (rest : List (α × Ver))
+/-- what one iteration of `Spec.filterLoop` does with its item -/
+inductive FAct | skip | yield | defer
+
+/-- the decision of one iteration of `Spec.filterLoop`: it depends on the version only, not on the tag -/
+def filterAct (sp : Spec) (ov pre : Option Bool) (v : Ver) : R FAct := do
+  let c ← sp.contains ov v (some (pre.getD true))
+  if c then do
+    let deferred ← (if v.isPre then (if pre == some true then pure false else do
+          let own ← sp.prereleases ov
+          pure (!own)) else pure false : R Bool)
+    if deferred then pure FAct.defer else pure FAct.yield
+  else pure FAct.skip
+
+theorem filterLoop_cons {α} (sp : Spec) (ov pre : Option Bool) (tag : α) (v : Ver) (rest : List (α × Ver))
     (y fo : List α) :
-    sp.filterLoop ov pre ((tag, v) :: rest) y fo = sp.filterLoop ov pre rest y fo ∨
-    sp.filterLoop ov pre ((tag, v) :: rest) y fo = sp.filterLoop ov pre rest (y ++ [tag]) fo ∨
-    sp.filterLoop ov pre ((tag, v) :: rest) y fo = sp.filterLoop ov pre rest y (fo ++ [tag]) ∨
-    ∃ e, sp.filterLoop ov pre ((tag, v) :: rest) y fo = .error e := by
-  sorry
+    sp.filterLoop ov pre ((tag, v) :: rest) y fo = (do
+      let a ← filterAct sp ov pre v
+      match a with
+      | .skip => sp.filterLoop ov pre rest y fo
+      | .yield => sp.filterLoop ov pre rest (y ++ [tag]) fo
+      | .defer => sp.filterLoop ov pre rest y (fo ++ [tag])) := by
+  simp only [Spec.filterLoop, filterAct]
+  cases sp.contains ov v (some (pre.getD true)) with
+  | error e => rfl
+  | ok c =>
+    cases c with
+    | false => rfl
+    | true =>
+      simp only [ok_bind, if_true]
+      cases v.isPre
+      · rfl
+      · simp only [if_true]
+        cases (pre == some true)
+        · simp only [Bool.false_eq_true, if_false]
+          cases sp.prereleases ov with
+          | error e => rfl
+          | ok own => cases own <;> rfl
+        · rfl
+
+/-- renaming the tags commutes with the loop -/
+theorem filterLoop_map {α β} (g : α → β) (sp : Spec) (ov pre : Option Bool) (items : List (α × Ver)) :
+    ∀ (y fo : List α),
+    sp.filterLoop ov pre (items.map fun x => (g x.1, x.2)) (y.map g) (fo.map g) =
+      (sp.filterLoop ov pre items y fo).map (fun r => (r.1.map g, r.2.map g)) := by
+  induction items with
+  | nil => intro y fo; rfl
+  | cons x rest ih =>
+    intro y fo
+    obtain ⟨tag, v⟩ := x
+    have h1 := ih y fo
+    have h2 := ih (y ++ [tag]) fo
+    have h3 := ih y (fo ++ [tag])
+    simp only [List.map_append, List.map_cons, List.map_nil] at h2 h3
+    simp only [List.map_cons, filterLoop_cons]
+    cases filterAct sp ov pre v with
+    | error e => rfl
+    | ok a => cases a <;> simp only [ok_bind, h1, h2, h3]
+
+/-- renaming the tags commutes with `Spec.filter` -/
+theorem spec_filter_map {α β} (g : α → β) (sp : Spec) (ov pre : Option Bool) (items : List (α × Ver)) :
+    sp.filter ov pre (items.map fun x => (g x.1, x.2)) = (sp.filter ov pre items).map (List.map g) := by
+  unfold Spec.filter
+  have h := filterLoop_map g sp ov (match pre with | some b => some b | none => ov) items [] []
+  simp only [List.map_nil] at h
+  simp only [h]
+  cases sp.filterLoop ov (match pre with | some b => some b | none => ov) items [] [] with
+  | error e => rfl
+  | ok r =>
+    simp only [Except.map, ok_bind, List.isEmpty_map]
+    split <;> rfl
+
+/-- the loop adds only tags of its items to its two lists -/
+theorem filterLoop_mem {α} (sp : Spec) (ov pre : Option Bool) (items : List (α × Ver)) :
+    ∀ (y fo : List α) (r : List α × List α), sp.filterLoop ov pre items y fo = .ok r →
+      ∀ t, (t ∈ r.1 ∨ t ∈ r.2) → (t ∈ y ∨ t ∈ fo) ∨ ∃ x ∈ items, x.1 = t := by
+  induction items with
+  | nil =>
+    intro y fo r h t ht
+    simp only [Spec.filterLoop, pure, Except.pure, Except.ok.injEq] at h
+    subst h
+    exact Or.inl ht
+  | cons x rest ih =>
+    intro y fo r h t ht
+    obtain ⟨tag, v⟩ := x
+    rw [filterLoop_cons] at h
+    cases ha : filterAct sp ov pre v with
+    | error e => rw [ha] at h; cases h
+    | ok a =>
+      rw [ha] at h
+      have lift : (∃ x ∈ rest, x.1 = t) → ∃ x ∈ (tag, v) :: rest, x.1 = t :=
+        fun ⟨x, hx, hxt⟩ => ⟨x, List.mem_cons_of_mem _ hx, hxt⟩
+      have here : t = tag → ∃ x ∈ (tag, v) :: rest, x.1 = t :=
+        fun e => ⟨(tag, v), List.mem_cons_self .., e.symm⟩
+      cases a with
+      | skip =>
+        rcases ih y fo r h t ht with h' | h'
+        · exact Or.inl h'
+        · exact Or.inr (lift h')
+      | yield =>
+        rcases ih (y ++ [tag]) fo r h t ht with h' | h'
+        · simp only [List.mem_append, List.mem_singleton] at h'
+          rcases h' with (h' | h') | h'
+          · exact Or.inl (Or.inl h')
+          · exact Or.inr (here h')
+          · exact Or.inl (Or.inr h')
+        · exact Or.inr (lift h')
+      | defer =>
+        rcases ih y (fo ++ [tag]) r h t ht with h' | h'
+        · simp only [List.mem_append, List.mem_singleton] at h'
+          rcases h' with h' | h' | h'
+          · exact Or.inl (Or.inl h')
+          · exact Or.inl (Or.inr h')
+          · exact Or.inr (here h')
+        · exact Or.inr (lift h')
+
+/-- `Spec.filter` yields only tags of its items -/
+theorem spec_filter_mem {α} (sp : Spec) (ov pre : Option Bool) (items : List (α × Ver)) (out : List α)
+    (h : sp.filter ov pre items = .ok out) : ∀ t ∈ out, ∃ x ∈ items, x.1 = t := by
+  unfold Spec.filter at h
+  cases hl : sp.filterLoop ov (match pre with | some b => some b | none => ov) items [] [] with
+  | error e => rw [hl] at h; cases h
+  | ok r =>
+    rw [hl] at h
+    have hm := filterLoop_mem sp ov _ items [] [] r hl
+    intro t ht
+    have : t ∈ r.1 ∨ t ∈ r.2 := by
+      simp only [ok_bind] at h
+      split at h <;> (simp only [pure, Except.pure, Except.ok.injEq] at h; subst h)
+      · exact Or.inr ht
+      · exact Or.inl ht
+    rcases hm t this with h' | h'
+    · simp at h'
+    · exact h'
 
 end Src
